@@ -372,6 +372,10 @@ func (w *concWorld) sequentialAgrees() bool {
 
 // runConc is the body of C04 and C15 (they share workload and schedule space and differ in oracle).
 func runConc(t *testing.T, rc *RunCtx, prop string) {
+	if prop == "C15" && rc.Param("mode", "") == "free" {
+		runFreeConc(t, rc)
+		return
+	}
 	ch := rc.Ch
 	// Swarm configuration.
 	nKeys := 1 + ch.Pick(4, 0)
